@@ -19,7 +19,7 @@
 (***************************************************************************)
 EXTENDS InitCmdContract, TLC, Json
 
-CONSTANTS Worlds,      \* set of [id, pkgs, gopkgs, cfgs, inits, envs] records (scratch module + alphabets)
+CONSTANTS Worlds,      \* set of [id, pkgs, gopkgs, cfgs, inits, envs, ancs] records (scratch module + alphabets)
           IfacesOf,    \* package id -> set of interface names it declares (Go packages of the world)
           RejectedPkgs,\* package ids whose written file mockery's loader rejects   } known findings: yaml.v3 writes the key
           MangledPkgs, \* package ids that load back as a different string          } `<<` unquoted and mis-writes some block literals
@@ -28,6 +28,7 @@ CONSTANTS Worlds,      \* set of [id, pkgs, gopkgs, cfgs, inits, envs] records (
 
 VARIABLES world,       \* the world record chosen for this behaviour
           start,       \* kind of content at the target path before the first operation
+          anc,         \* a configuration file some ancestor directory of the working directory already holds
           env,         \* class of MOCKERY_* variables set while `init` runs (load and run use a clean environment)
           cfg,         \* class of the --config argument (see CfgClasses)
           content,     \* what is at the target path: [k |-> kind, p |-> package id or None]
@@ -37,8 +38,8 @@ VARIABLES world,       \* the world record chosen for this behaviour
           last,        \* the last completed operation with its outcome and the contract's verdict
           hist         \* all completed operations (observation; hidden by VIEW)
 
-vars == <<world, start, env, cfg, content, mocks, loaded, pc, pending, last, hist>>
-view == <<world, start, env, cfg, content, mocks, loaded, pc, pending>>
+vars == <<world, start, anc, env, cfg, content, mocks, loaded, pc, pending, last, hist>>
+view == <<world, start, anc, env, cfg, content, mocks, loaded, pc, pending>>
 
 \* --config classes.  "default": flag absent, init.go:47 falls back to ".mockery.yml" in the working
 \* directory and a later plain run finds it by search.  All others name the file explicitly.
@@ -48,7 +49,7 @@ ParentOK(c) == c # "missing"
 \* kinds of content at the target path
 UserKinds == {"empty", "valid", "garbage", "dir", "dirfull", "link", "dangling", "twin"}
 C(k, p) == [k |-> k, p |-> p]
-Presence(c) == IF c.k = "absent" THEN "no" ELSE IF c.k = "dangling" THEN "ambiguous" ELSE "yes"
+Presence(c) == IF c.k = "absent" THEN "no" ELSE "yes"      \* lstat: a dangling link is something, too
 By(c) == IF c.k = "init" THEN c.p ELSE None
 
 Init ==
@@ -56,6 +57,8 @@ Init ==
   /\ cfg \in world.cfgs
   /\ start \in world.inits
   /\ cfg = "missing" => start = "absent"      \* nothing can be below a directory that does not exist
+  /\ anc \in world.ancs
+  /\ anc # "none" => start = "absent" /\ cfg \in {"default", "cwdsub"}   \* only the search for a config looks upwards
   /\ env \in world.envs
   /\ env # "none" => start \in {"absent", "dangling"}   \* the environment can only matter when init writes
   /\ content = C(start, None)
@@ -75,10 +78,10 @@ InitOpen(p) ==
   /\ IF content.k # "absent" \/ ~ParentOK(cfg)
      THEN /\ Done([op |-> "init", pkg |-> p, ok |-> FALSE, after |-> "same",
                    allow |-> InitAllowed(Presence(content), ParentOK(cfg))])
-          /\ UNCHANGED <<world, start, env, cfg, content, mocks, loaded, pc, pending>>
+          /\ UNCHANGED <<world, start, anc, env, cfg, content, mocks, loaded, pc, pending>>
      ELSE /\ content' = C("created", None)        \* an empty file exists from here on
           /\ pc' = "opened" /\ pending' = p
-          /\ UNCHANGED <<world, start, env, cfg, mocks, loaded, last, hist>>
+          /\ UNCHANGED <<world, start, anc, env, cfg, mocks, loaded, last, hist>>
 
 \* init.go:54-71,81-88.  rootConf = defaults of NewDefaultKoanf + packages {p: {config: {all: true}}}.
 \* NewDefaultKoanf (config.go:89-110) holds the built-in defaults only: the MOCKERY_* environment is a layer of
@@ -90,7 +93,7 @@ InitEncode ==
   /\ pc' = "idle" /\ pending' = None
   /\ Done([op |-> "init", pkg |-> pending, ok |-> TRUE, after |-> "created",
            allow |-> InitAllowed("no", ParentOK(cfg))])
-  /\ UNCHANGED <<world, start, env, cfg, mocks>>
+  /\ UNCHANGED <<world, start, anc, env, cfg, mocks>>
 
 (* ------------------------------------------------------------ showconfig *)
 \* Known deviations (findings C18-merge-key-package, C18-block-literal-package): yaml.v3 writes the key `<<`
@@ -109,7 +112,7 @@ Load ==
   /\ LET r == LoadImpl(content) IN
      /\ Done([op |-> "load", pkg |-> By(content), ok |-> r.ok, keys |-> r.keys, expect |-> LoadExpect(By(content))])
      /\ loaded' = IF TrackLoad /\ r.ok THEN TRUE ELSE loaded
-  /\ UNCHANGED <<world, start, env, cfg, content, mocks, pc, pending>>
+  /\ UNCHANGED <<world, start, anc, env, cfg, content, mocks, pc, pending>>
 
 (* ------------------------------------------------------------- plain run *)
 IsGoPkg(p) == p \in world.gopkgs
@@ -130,7 +133,7 @@ Run ==
      /\ Done([op |-> "run", pkg |-> By(content), ok |-> r.ok, mocked |-> r.mocked,
               expect |-> RunExpect(By(content), IsGoPkg(content.p), Ifc(content.p), content.p \in mocks)])
      /\ mocks' = IF r.ok THEN mocks \cup {content.p} ELSE mocks
-  /\ UNCHANGED <<world, start, env, cfg, content, loaded, pc, pending>>
+  /\ UNCHANGED <<world, start, anc, env, cfg, content, loaded, pc, pending>>
 
 Next ==
   \/ \E p \in world.pkgs : InitOpen(p)
@@ -156,8 +159,13 @@ ImplConforms == [][Len(hist') > Len(hist) => Conforms(last')]_vars
 ExistingNeverModified ==
   [][(content.k \notin {"absent", "created"}) => content' = content]_vars
 
+\* ancestor configs: u<levels above the working directory>-<file name>-<content>.  The search
+\* (internal/config.FindConfig) looks for .mockery.yaml and .mockery.yml in the working directory first and
+\* only then in its parents, so the file init wrote there wins over any of these.
+AncClasses == {"none", "u1-yaml-valid", "u1-yml-valid", "u1-yaml-empty", "u1-yml-empty",
+               "u2-yaml-valid", "u2-yml-valid", "u2-yaml-empty", "u2-yml-empty"}
 EnvClasses == {"none", "loglevel", "dir", "filename", "force", "all", "template", "config", "buildtags", "unknown", "several", "lower"}
-TypeOK == /\ cfg \in CfgClasses /\ env \in EnvClasses
+TypeOK == /\ cfg \in CfgClasses /\ env \in EnvClasses /\ anc \in AncClasses
           /\ content.k \in UserKinds \cup {"absent", "created", "init"}
           /\ pc \in {"idle", "opened"}
           /\ mocks \subseteq world.gopkgs
@@ -170,7 +178,7 @@ NeverRunMocks == ~(last.op = "run" /\ last.ok)
 -----------------------------------------------------------------------------
 (* Export: every generated transition that completes an operation is printed once, with the world, the
    --config class, the initial content and the history that leads to it. *)
-Case == [world |-> world.id, cfg |-> cfg, start |-> start, env |-> env, ops |-> hist]
+Case == [world |-> world.id, cfg |-> cfg, start |-> start, env |-> env, anc |-> anc, ops |-> hist]
 Emit == IF pc = "idle" /\ Len(hist) > 0 /\ TLCGet("config").mode = "bfs"
         THEN PrintT(<<"CASE", ToJson(Case)>>) ELSE TRUE
 =============================================================================
